@@ -116,3 +116,29 @@ Example c01_accepted_tuples :
   check_next HaveLocalOffer HaveLocalOffer SetLocal Offer
     = (HaveLocalOffer, Some EInvalidModification).
 Proof. repeat split; reflexivity. Qed.
+
+(* ---- second tie to the source: the translated function ----
+   Gen/GoSignaling.v is regenerated from signalingstate.go by tools/go2coq
+   before every run of this check; its checkNextSignalingState, read through
+   the adapters of Proofs/GenSignaling.v (an integer is the declared constant
+   it equals, every other integer is SOut / OpOut / TOut; the error value is its
+   class), IS the model's check_next -- for all integers, not only the 8x8x4x6
+   tuples of the differential run.  An edit of the Go function that changes its
+   meaning breaks this obligation. *)
+From Coq Require Import ZArith.
+From Verif Require Proofs.GenSignaling Gen.GoSignaling.
+Theorem c01_generated_model_agrees : forall cur next op ty : BinNums.Z,
+  GenSignaling.sig_abs (GoSignaling.checkNextSignalingState cur next op ty)
+  = check_next (GenSignaling.sig_state_of_Z cur) (GenSignaling.sig_state_of_Z next)
+               (GenSignaling.sig_op_of_Z op) (GenSignaling.sig_type_of_Z ty).
+Proof. exact GenSignaling.gen_check_next_agrees. Qed.
+Print Assumptions c01_generated_model_agrees.
+
+(* the adapters are not vacuous: an accepted edge and a rejected call, computed
+   through the generated function *)
+Example c01_generated_nontrivial :
+  GoSignaling.checkNextSignalingState 1%Z 2%Z 1%Z 1%Z = (2%Z, None) /\
+  GoSignaling.checkNextSignalingState 1%Z 1%Z 1%Z 4%Z
+    = (1%Z, Some "rtcerr.InvalidModificationError"%string) /\
+  GenSignaling.sig_state_of_Z 2%Z = HaveLocalOffer /\ GenSignaling.sig_state_of_Z 99%Z = SOut.
+Proof. repeat split; reflexivity. Qed.
